@@ -553,6 +553,13 @@ def _resolve(node, env, det, params):
     if isinstance(node, ast.Name):
         return env.get(node.id, "FromOther")
     txt = ast.unparse(node)
+    # detector.characteristics.adc_voltage_range[0] / [1] / [-2] / [-1]
+    if isinstance(node, ast.Subscript) and ast.unparse(node.value) == f"{det}.characteristics.adc_voltage_range":
+        try:
+            k = int_const(node.slice)
+        except Exception:
+            return "FromOther"
+        return {0: "FromRangeLo", -2: "FromRangeLo", 1: "FromRangeHi", -1: "FromRangeHi"}.get(k, "FromOther")
     for k, v in DET_ATTRS.items():
         if txt == f"{det}.{k}":
             return v
@@ -1011,8 +1018,12 @@ def _wrapper(tree, fname, apply_name, want):
             if not (len(tgt.elts) == 2 and all(isinstance(e, ast.Name) for e in tgt.elts)
                     and ast.unparse(val) == f"{det}.characteristics.adc_voltage_range"):
                 fail(st, "tuple assignment must unpack adc_voltage_range into two names")
+            call_of.pop(tgt.elts[0].id, None)
+            call_of.pop(tgt.elts[1].id, None)
             env[tgt.elts[0].id], env[tgt.elts[1].id] = "FromRangeLo", "FromRangeHi"
         elif isinstance(tgt, ast.Name):
+            prev_call = call_of.get(val.id) if isinstance(val, ast.Name) else None
+            call_of.pop(tgt.id, None)                      # a rebound name no longer stands for the converter's result
             if isinstance(val, ast.Call) and ast.unparse(val.func) == apply_name:
                 call_of[tgt.id] = val
                 env[tgt.id] = "CALL"
@@ -1021,6 +1032,12 @@ def _wrapper(tree, fname, apply_name, want):
                 barg = val.args[0] if val.args else val.keywords[0].value
                 env[tgt.id] = "DTYPE"
                 dtype_rule[tgt.id] = f"DtGetDtypeOf {_resolve(barg, env, det, params)}"
+            elif prev_call is not None:
+                call_of[tgt.id] = prev_call                # another name for the converter's result
+                env[tgt.id] = "CALL"
+            elif isinstance(val, ast.Name) and env.get(val.id) == "DTYPE":
+                env[tgt.id] = "DTYPE"
+                dtype_rule[tgt.id] = dtype_rule[val.id]
             else:
                 env[tgt.id] = _resolve(val, env, det, params)
         elif isinstance(tgt, ast.Attribute) and ast.unparse(tgt) == f"{det}.image.array":
